@@ -19,10 +19,11 @@ def meta_of(path):
     return None
 
 
+ready = set(json.load(open(os.path.join(V, "tools", "ready.json"))))
 checks, claimed = [], set()
 for f in sorted(glob.glob(os.path.join(V, "harness", "C*.py"))):
     m = meta_of(f)
-    if not m or m.get("disabled"):
+    if not m or m.get("disabled") or m["property_id"] not in ready:
         continue
     pid = m["property_id"]
     claimed.add(pid)
